@@ -832,6 +832,9 @@ class Models:
     def m_HashMap__into_values(self, c, m):
         return list_iter([e[1] for e in self.map_iter_order(deref(m))])
 
+    m_BTreeMap__into_keys = m_HashMap__into_keys
+    m_BTreeMap__into_values = m_HashMap__into_values
+
     def m_BTreeSet__last(self, c, m):
         mm = deref(m)
         return Some(Ref(mm.entries[-1], 0)) if mm.entries else NONE()
@@ -865,6 +868,71 @@ class Models:
         return list_iter(out)
 
     m_HashSet__difference = m_BTreeSet__difference
+
+    def m_BTreeSet__is_superset(self, c, a, b):
+        return self.m_BTreeSet__is_subset(c, b, a)
+
+    m_HashSet__is_superset = m_BTreeSet__is_superset
+
+    def m_BTreeSet__is_disjoint(self, c, a, b):
+        a, b = deref(a), deref(b)
+        return b_and(*[b_not(val_eq(x[0], y[0])) for x in a.entries for y in b.entries])
+
+    m_HashSet__is_disjoint = m_BTreeSet__is_disjoint
+
+    def m_BTreeSet__intersection(self, c, a, b):
+        a, b = deref(a), deref(b)
+        out = []
+        for x in a.entries:
+            if self.ctx.branch(b_or(*[val_eq(x[0], y[0]) for y in b.entries])):
+                out.append(Ref(x, 0))
+        return list_iter(out)
+
+    m_HashSet__intersection = m_BTreeSet__intersection
+
+    def m_BTreeSet__union(self, c, a, b):
+        a, b = deref(a), deref(b)
+        tmp = RMap(a.kind, True, [[e[0], UNIT] for e in a.entries])
+        for y in b.entries:
+            if self.map_find(tmp, y[0]) < 0:
+                tmp.entries.insert(self.map_insert_pos(tmp, y[0]), [y[0], UNIT])
+        return list_iter([Ref(e, 0) for e in (tmp.entries if a.kind == 'btree' else self.map_iter_order(tmp))])
+
+    m_HashSet__union = m_BTreeSet__union
+
+    def m_BTreeSet__symmetric_difference(self, c, a, b):
+        a, b = deref(a), deref(b)
+        tmp = RMap(a.kind, True, [])
+        for src, other in ((a, b), (b, a)):
+            for x in src.entries:
+                if not self.ctx.branch(b_or(*[val_eq(x[0], y[0]) for y in other.entries])):
+                    tmp.entries.insert(self.map_insert_pos(tmp, x[0]), [x[0], UNIT])
+        return list_iter([Ref(e, 0) for e in tmp.entries])
+
+    m_HashSet__symmetric_difference = m_BTreeSet__symmetric_difference
+
+    def m_BTreeMap__append(self, c, m, other):
+        mm, oo = deref(m), deref(other)
+        for k, v in list(oo.entries):
+            self.map_insert(mm, k, v)
+        oo.entries[:] = []
+        return UNIT
+
+    m_BTreeSet__append = m_BTreeMap__append
+
+    def m_bool__then(self, c, b, f):
+        return Some(self.call_closure(f)) if self.ctx.branch(b) else NONE()
+
+    def m_Option__transpose(self, c, o):
+        o = deref(o)
+        if o.discr == 0:
+            return Ok(NONE())
+        r = deref(o.f[0])
+        return Ok(Some(r.f[0])) if r.vname == 'Ok' else r
+
+    def m_slice__split_at(self, c, v, n):
+        s = items_of(v)
+        return Agg([RVec(list(s.items[:n])), RVec(list(s.items[n:]))])
 
     # Entry API
     def m_HashMap__entry(self, c, m, k):
@@ -1447,8 +1515,10 @@ class Models:
         # symbolic: fork on the bracket, up to the bound recorded in ctx
         kmax = getattr(self.ctx, 'log2_kmax', 24)
         m = z3real(a.r)
-        if self.ctx.branch(m <= 0):
-            raise Unsupported('log2 of non-positive symbolic value')
+        if self.ctx.branch(m == 0):
+            return NINF               # log2(0) = -inf
+        if self.ctx.branch(m < 0):
+            return NAN                # log2 of a negative number
         for k in range(0, kmax + 1):
             if self.ctx.branch(m == z3.RealVal(2 ** k)):
                 return fin(k)
